@@ -238,6 +238,12 @@ func c05Burst(r *wk.Rand, tag string) ([][]rig.ExecSpec, map[string]c05Exec) {
 		e.spec.Input = in
 		execs[runID] = e
 		group = append(group, e.spec)
+		if i%6 == 4 {
+			// the same run ID a second time while the first run (a slow step) is still pending: the second call is
+			// refused and must leave the first one alone
+			in["mode"] = "gated"
+			group = append(group, e.spec)
+		}
 	}
 	return [][]rig.ExecSpec{group}, execs
 }
@@ -249,9 +255,19 @@ func c05CheckResults(c *wk.Ctx, label string, res *rig.SessionResult, execs map[
 	for id := range execs {
 		all = append(all, id)
 	}
+	issued, refused := map[string]int{}, map[string]int{}
+	for _, o := range res.Execs {
+		issued[o.Spec.RunID]++
+	}
 	for _, o := range res.Execs {
 		if atomic.LoadInt32(&o.Returned) != 1 {
 			continue // liveness is judged separately
+		}
+		if issued[o.Spec.RunID] > 1 && o.Result.Error != nil && errClass(o.Result.Error.Error()) == "duplicate-run-id" && refused[o.Spec.RunID] < issued[o.Spec.RunID]-1 {
+			// one of two calls that use the same run ID at the same time is refused; the other is judged as usual
+			refused[o.Spec.RunID]++
+			c.Count("executes_refused_as_duplicates")
+			continue
 		}
 		e := execs[o.Spec.RunID]
 		wantID, wantData, wantErr := rig.InProcess(o.Spec.RunID, o.Spec.StepID, o.Spec.Input)
